@@ -246,6 +246,9 @@ func c07SameBuffer(c *RunCtx, g *Gen) {
 func c07Direct(c *RunCtx, g *Gen) {
 	t := c.T
 	name := pickType(t, 3)
+	if t.Intn(30) == 0 {
+		lateRegister(c, g, name)
+	}
 	s, ok := genSent(c, g, name)
 	if !ok {
 		return
@@ -642,7 +645,24 @@ func runC08(c *RunCtx) {
 	t := c.T
 	g := &Gen{t: t, cfg: drawCfg(t, c.Thorough)}
 	name := pickType(t, 3)
-	s, ok := genSent(c, g, name)
+	if t.Intn(40) == 0 {
+		lateRegister(c, g, name)
+	}
+	var s *sent
+	ok := false
+	if c.Thorough && t.Chance(1, 4000) {
+		// a multi-megabyte frame (the checksum accumulators' ranges)
+		m := jumboFrame(g, 8_450_000+t.Intn(100_000))
+		name = "szse.SzseBinary"
+		s = &sent{name: name, pre: Clone(m), post: m}
+		var b bytes.Buffer
+		if r := tryEncode(m, &b); r.Err == nil && r.Panic == nil {
+			s.w, ok = cloneBytes(b.Bytes()), true
+		}
+		c.Probe("jumbo-frame")
+	} else {
+		s, ok = genSent(c, g, name)
+	}
 	if !ok {
 		return
 	}
@@ -1183,6 +1203,17 @@ func runC15(c *RunCtx) {
 	default:
 		dirty = newValue(name)
 		how = "fresh"
+		if schema.Types[name].Table != "" && t.Intn(2) == 0 {
+			// the object was an OUTGOING message before: built without body/extension and encoded
+			// (the encoder filled the missing part in from the discriminator)
+			saved := g.cfg
+			g.cfg.NilBody = true
+			dirty = g.Value(name)
+			g.cfg = saved
+			tryEncode(dirty, &bytes.Buffer{})
+			how = "was sent before (built without body/extension and encoded)"
+			c.Probe("history.was-outgoing")
+		}
 	}
 	switch t.Intn(4) {
 	case 0, 1:
